@@ -7,6 +7,7 @@ var exoticSlots = []string{
 	"", "[]", "[ ]", "null", "{}", "\"1\"", "[1", "1,2", "[1.5]", "[1e0]", "[\"1\"]", "[true]", "[1,1,1]", "[0]", "[0,1,2,3]",
 	"[-1]", "[-1,0]", "[-5,2]", "[-2147483648]", "[2147483647]", "[2147483648]", "[99999999999]", "[2,2147483647]",
 	"[1]]", "[1],", "[1] [0]", "[1]garbage", "[0]\n[2]", "[1,2] ,", "[2]}",
+	"[\"1\",\"2\"]", "[1,\"2\"]", "[[1]]", "[2.5,null]", "[null]", "[{}]", "[1,[2]]",
 	"[1,3,5,7]", "[0,2,4,6,8,10]", "[7]", "[100]", "[3,2,1]", "[0, 1]", " [1] ", "[1,-1]", "[6,0]",
 }
 
